@@ -22,7 +22,7 @@ def attr_history_independence(rep):
     n = 0
     for a in outs['pristine']:
         if a[0] == '<released>' and a[4] != 'ok':
-            rep.finding_or_violation('C13:released:' + a[1], '%s: the element is not on its own again (%s)' % (a[1], a[6]), {'probe': a[1], 'observed': a[6]})
+            rep.finding_or_violation('C13:released:' + a[1], '%s: not so (%s)' % (a[1], a[6]), {'probe': a[1], 'observed': a[6]})
     for a, b in zip(outs['pristine'], outs['after']):
         n += 1
         if a != b:
